@@ -19,7 +19,10 @@ CONTENTS = [b"alpha " * 200, b"BETA" * 4000, b"gamma\n", b"", b"delta" * 9000, b
 
 class Server:
     def __init__(self, sb, root):
-        self.p = subprocess.Popen([CLI_BIN, "serve", root], stdin=subprocess.PIPE, stdout=subprocess.PIPE, stderr=subprocess.PIPE, env=sb.env, cwd=sb.dir)
+        env = dict(sb.env)
+        if getattr(sb, "rust_log", None):
+            env["RUST_LOG"] = sb.rust_log      # the hub account's logging configuration: never the client's business
+        self.p = subprocess.Popen([CLI_BIN, "serve", root], stdin=subprocess.PIPE, stdout=subprocess.PIPE, stderr=subprocess.PIPE, env=env, cwd=sb.dir)
         self.buf = b""
 
     def send(self, b):
@@ -202,6 +205,11 @@ def solo_conformance(op, pr, pre_tree, rep):
             continue
         toks.append(t)
     real = ",".join(toks) if toks else "-"
+    comps = [c for c in p.split("/") if c not in ("", ".")]
+    if p.startswith("/") or ".." in p.split("/") or (comps and comps[0] == ".copia"):
+        # a path `safe_join` refuses: the request is answered `bad path` (a Put's content drained) without a single file-system
+        # call — it is not a step of the transition system, so there is no model query; the expectation is "no calls"
+        return (None, real, "-", dict(rep, request=op["desc"], server_calls=[c.replace(str(pid), "<pid>") for c in pr.trace][:24]))
     hc = HASHCODES
     cur = pre_tree.get(key)
     curh = bytes.fromhex(blake3_hex([cur])[0]) if cur is not None else None
@@ -433,6 +441,12 @@ def run(pid, tier, seed, rundir, model_run):
         cn = f"f.conflict-{hst.hex()[:12]}"
         yield {"f": v1}, [[mkput("f", hv1, v2)], [mkput("f", hv1, stale), mkput("f", hv1, stale)], [mkput(cn, hst, fixed)]], \
             [(0, 0, 0), (1, 0, 0), (2, 0, 0), (1, 1, 0)]
+        # (seed C03-M) one session commits f twice; between its two Puts another session commits content of the SAME LENGTH, in the
+        # same second: whatever the first session remembers about f (a hash keyed by size and mtime), its second Put expects a
+        # version that is no longer current — it must lose, the other session's acknowledged commit stays
+        a1, b1, a2 = b"session A #1\n", b"session B #1\n", b"session A #2\n"
+        ha1 = bytes.fromhex(blake3_hex([a1])[0])
+        yield {"f": v1}, [[mkput("f", hv1, a1), mkput("f", ha1, a2)], [mkput("f", ha1, b1)]], [(0, 0, 0), (1, 0, 0), (0, 1, 0)]
 
     for ci in range(ncases):
         tree = {}
@@ -441,7 +455,7 @@ def run(pid, tier, seed, rundir, model_run):
         nclients = rng.range(2, 3)
         clients = [gen_ops(rng, tree, pid) for _ in range(nclients)]
         forced_order = None
-        if ci < 1:
+        if ci < 2:
             tree, clients, forced_order = list(corpus_cases())[ci]
             tree = dict(tree); nclients = len(clients)
         # schedule: a random interleaving of (client, op index, piece index)
@@ -468,6 +482,7 @@ def run(pid, tier, seed, rundir, model_run):
             root = sb.path("hub")
             sb.write_tree(root, tree)
             os.makedirs(root, exist_ok=True)
+            sb.rust_log = [None, "trace", None, "copia=debug"][(len(order) + len(tree)) % 4]
             servers = [Server(sb, root) for _ in clients]
             okh = True
             for s in servers:
